@@ -209,9 +209,10 @@ class CSSNamespaceRule(cssrule.CSSRule):
 
             # set all
             if wellformed:
+                # may raise (the URI of an existing rule is readonly): first
+                self.namespaceURI = new['uri']
                 self.atkeyword = new['keyword']
                 self._prefix = new['prefix']
-                self.namespaceURI = new['uri']
                 self._setSeq(newseq)
 
     cssText = property(fget=_getCssText, fset=_setCssText,
